@@ -128,6 +128,9 @@ impl<H: Hasher> BatchMerkleProof<H> {
 
         // replace odd indexes, offset, and sort in ascending order
         let index_map = super::map_indexes(indexes, self.depth as usize)?;
+        if self.leaves.len() != index_map.len() {
+            return Err(MerkleTreeError::InvalidProof);
+        }
         let indexes = super::normalize_indexes(indexes);
         if indexes.len() != self.nodes.len() {
             return Err(MerkleTreeError::InvalidProof);
